@@ -121,10 +121,10 @@ func buildShape(c Call, u float64) (*canvas.Path, error) {
 
 // shapeStream builds the shape and projects its data. Arc shapes with a rotation that is no multiple of 45 degrees and
 // the polygon family are quantised instead of being required on the lattice.
-func shapeStream(s *Scenario) (stream [][]int, data []float64, ms []core.Mismatch) {
+func shapeStream(s *Scenario) (stream [][]int, off string, data []float64, ms []core.Mismatch) {
 	e, ok := shapeUnit(s.Emb)
 	if !ok || len(s.Hist) != 1 {
-		return nil, nil, []core.Mismatch{{Signature: "machinery", Detail: "bad shape scenario"}}
+		return nil, "", nil, []core.Mismatch{{Signature: "machinery", Detail: "bad shape scenario"}}
 	}
 	okb, msg := latgeo.Try(func() {
 		p, err := buildShape(s.Hist[0], e.A)
@@ -135,10 +135,10 @@ func shapeStream(s *Scenario) (stream [][]int, data []float64, ms []core.Mismatc
 		data = cloneF(p.Data())
 	})
 	if !okb {
-		return nil, nil, []core.Mismatch{{Signature: "panic-" + s.Hist[0].Op + ":" + latgeo.PanicClass(msg), Detail: fmt.Sprintf("%s panics: %v", histString(s.Hist), msg)}}
+		return nil, "", nil, []core.Mismatch{{Signature: "panic-" + s.Hist[0].Op + ":" + latgeo.PanicClass(msg), Detail: fmt.Sprintf("%s panics: %v", histString(s.Hist), msg)}}
 	}
 	if len(ms) > 0 {
-		return nil, nil, ms
+		return nil, "", nil, ms
 	}
 	quant := quantShape(s.Hist[0].Op) || s.Hist[0].Op == "Shape:EllipticalArc" || s.Hist[0].Op == "Shape:Arc"
 	pe := e
@@ -147,12 +147,12 @@ func shapeStream(s *Scenario) (stream [][]int, data []float64, ms []core.Mismatc
 	}
 	stream, off, err := Project(data, pe)
 	if err != nil {
-		return nil, data, []core.Mismatch{{Signature: "not-decodable", Detail: fmt.Sprintf("%s: Data() = %v: %v", histString(s.Hist), data, err)}}
+		return nil, "", data, []core.Mismatch{{Signature: "not-decodable", Detail: fmt.Sprintf("%s: Data() = %v: %v", histString(s.Hist), data, err)}}
 	}
-	if off != "" && !quant {
-		ms = append(ms, core.Mismatch{Signature: "offgrid:" + s.Hist[0].Op, Detail: histString(s.Hist) + ": " + off})
+	if quant {
+		off = ""
 	}
-	return stream, data, ms
+	return stream, off, data, ms
 }
 
 // shapes enumerates the shape alphabet of the spec and replays it under every unit.
@@ -168,14 +168,17 @@ func (r *run) shapes() {
 		r.nontrivial++ // every shape call is a distinct constructor/argument combination
 		for _, u := range shapeUnits {
 			s := Scenario{Kind: "shape", Hist: l.Hist, Emb: u.Name, F: l.F}
-			stream, data, ms := shapeStream(&s)
+			stream, off, data, ms := shapeStream(&s)
 			r.nExec++
 			if stream != nil {
 				ms = append(ms, Derive(data, u, s.F, r.newPath, r.note)...)
 				r.nDerived++
 				id := len(r.events) + 1
-				r.events = append(r.events, Event{ID: id, Hist: l.Hist, Sm: stream})
+				r.events = append(r.events, Event{ID: id, Hist: l.Hist, Sm: stream, Off: b2i(off != "")})
 				r.evScen = append(r.evScen, s)
+				if off != "" {
+					r.offDetail[id] = off
+				}
 			}
 			r.report(s, ms)
 		}
